@@ -303,6 +303,88 @@ def run_shards(prop, tier, seed, outdir, extra_args, wall_cap, nshards=None):
     return reports, incidents
 
 
+def run_lanes(prop, seed, outdir):
+    """Sanitizer lanes of the thorough tier (C05: Miri + ASan on the hostile workload; C18: Miri +
+    TSan on threaded histories). Returns (summary dict, list of violations)."""
+    lanes = []
+    nightly_env = dict(ENV)
+    cfgflag = "--cfg regexml_verif"
+    tgt = "x86_64-unknown-linux-gnu"
+    if prop == "C05":
+        lanes = [
+            ("asan", "mem", 40000, dict(RUSTFLAGS=cfgflag + " -Zsanitizer=address -Cforce-frame-pointers=yes", ASAN_OPTIONS="detect_leaks=1:halt_on_error=1:abort_on_error=0"), ["cargo", "+nightly", "build", "--offline", "--release", "--target", tgt]),
+            ("miri", "mem", 60, dict(MIRIFLAGS="-Zmiri-disable-isolation"), None),
+        ]
+    elif prop == "C18":
+        lanes = [
+            ("tsan", "threads", 500, dict(RUSTFLAGS=cfgflag + " -Zsanitizer=thread", TSAN_OPTIONS="halt_on_error=1"), ["cargo", "+nightly", "build", "--offline", "--release", "-Zbuild-std", "--target", tgt]),
+            ("miri", "threads", 2, dict(MIRIFLAGS="-Zmiri-disable-isolation"), None),
+        ]
+    summary = {}
+    violations = []
+    for name, kind, n, env_extra, build_cmd in lanes:
+        tdir = os.path.join(VERIF, "target", name)
+        env = dict(nightly_env, CARGO_TARGET_DIR=tdir, **{k: v for k, v in env_extra.items() if k != "MIRIFLAGS"})
+        t0 = time.time()
+        if build_cmd:
+            b = subprocess.run(build_cmd, cwd=HARNESS, env=env, stdout=subprocess.PIPE, stderr=subprocess.STDOUT, text=True)
+            if b.returncode != 0:
+                summary[name] = {"status": "unavailable: build failed", "detail": b.stdout[-400:]}
+                continue
+            binary = [os.path.join(tdir, tgt, "release", "rxv")]
+        else:
+            binary = None
+        procs = []
+        for k in range(NPROC):
+            logp = os.path.join(outdir, "lane-%s-%s-%d.log" % (prop, name, k))
+            lf = open(logp, "w")
+            if binary:
+                cmd = binary + ["lane", "--kind", kind, "--n", str(n), "--seed", str(seed * 100 + k)]
+                penv = env
+            else:
+                penv = dict(env, MIRIFLAGS=env_extra["MIRIFLAGS"] + " -Zmiri-seed=%d" % (seed * 100 + k))
+                cmd = ["cargo", "+nightly", "miri", "run", "--offline", "--", "lane", "--kind", kind, "--n", str(n), "--seed", str(seed * 100 + k)]
+            procs.append((subprocess.Popen(cmd, cwd=HARNESS, env=penv, stdout=lf, stderr=subprocess.STDOUT), logp, lf))
+            if not binary and k == 0:
+                # let the first Miri process build the sysroot / crate before the others start
+                time.sleep(1)
+                try:
+                    procs[0][0].wait(timeout=1)
+                except subprocess.TimeoutExpired:
+                    pass
+        cases = calls = 0
+        reports = 0
+        counters = {}
+        done = 0
+        for pr, logp, lf in procs:
+            try:
+                pr.wait(timeout=3600)
+            except subprocess.TimeoutExpired:
+                pr.kill()
+                summary.setdefault(name, {})["timeouts"] = summary.get(name, {}).get("timeouts", 0) + 1
+                continue
+            lf.close()
+            text = open(logp, errors="replace").read()
+            res = None
+            for line in text.splitlines():
+                if line.startswith("LANE-RESULT "):
+                    res = json.loads(line[len("LANE-RESULT "):])
+            san = any(m in text for m in ("ERROR: AddressSanitizer", "ERROR: LeakSanitizer", "WARNING: ThreadSanitizer", "Undefined Behavior", "error: unsupported operation", "data race", "memory leaked"))
+            if san or (pr.returncode != 0 and res is None):
+                reports += 1
+                violations.append({"property": prop, "kind": "sanitizer_report_%s" % name, "observed": "see log %s: %s" % (logp, text[-600:]), "expected": "no sanitizer report", "case": {"pattern": "", "flags": "", "input": "", "aux": "lane %s seed %d" % (name, seed * 100 + len(violations))}, "original_case": {}, "shrink_complete": False, "facts": {"has_ast": False, "lane": name, "log": logp}})
+            if res:
+                done += 1
+                cases += res["cases"]
+                calls += res["engine_calls"]
+                for kk, vv in res["counters"].items():
+                    counters[kk] = counters.get(kk, 0) + vv
+                for v in res["violations"]:
+                    violations.append({"property": prop, "kind": v["kind"], "observed": v["observed"], "expected": "as on the ordinary build", "case": v["case"], "original_case": v["case"], "shrink_complete": False, "facts": {"has_ast": False, "lane": name}})
+        summary.setdefault(name, {}).update({"status": "ran", "processes": done, "cases": cases, "engine_calls": calls, "sanitizer_reports": reports, "counters": counters, "wall_s": round(time.time() - t0, 1)})
+    return summary, violations
+
+
 def union_hashes(outdirs, n):
     seen = set()
     for outdir in outdirs:
@@ -421,6 +503,10 @@ def check(prop, tier, seed, record_canaries=False):
     truncated = any(r.get("truncated") for r in reports.values())
     rule = next((r.get("rule") for r in reports.values() if r.get("rule")), "")
 
+    lane_summary = {}
+    if tier == "thorough" and prop in ("C05", "C18") and not os.environ.get("VERIF_NO_LANES"):
+        lane_summary, lane_viol = run_lanes(prop, seed, outdir)
+        violations.extend(lane_viol)
     # incidents: aborts / hangs observed by the watchdogs
     for inc in incidents:
         if inc["solo"] in ("abort", "hang"):
@@ -513,6 +599,7 @@ def check(prop, tier, seed, record_canaries=False):
         "canary_phase": {"seed": CANARY_SEED, "logical_shards": CANARY_SHARDS, "cases": sum(r["evaluations"] for r in can_reports.values()), "listed_known_failures": len(canary_known), "listed_known_failures_seen_again": canary_listed_seen, "attribution": "exact identity (kind, pattern, flags, dialect, replacement, aux)"},
         "unattributed_violations": len(unknown),
         "incidents": [{k: inc.get(k) for k in ("first", "solo", "detail")} for inc in incidents][:10],
+        "sanitizer_lanes": lane_summary if lane_summary else ("not run in the quick tier (build cost); see the thorough tier" if prop in ("C05", "C18") else "not applicable: no unsafe code, threads or shared state behind this property"),
         "oracle_selftest": {k: st.get(k) for k in ("repo_expectations_checked", "repo_expectations_found", "roundtrip_cases")},
         "insufficient": problems,
         "notes": notes[:10],
